@@ -416,6 +416,8 @@ def witness_items():
         item("none-hides", [_add("cfg", 1, "s", "k", a), _add("cfg", 3, "s", "k", none)]),
         item("narrow-first", [_add("cfg", 5, "s", "k", a), _add("cfg", 1, "s", "k", _val("str", "b")), _add("cfg", 0, "s", "k", _val("str", "c"))]),
         item("addall-target-narrower", [_add("cfg", 3, "s", "k", a), _add("base", 1, "s", "k", _val("str", "b")), {"op": "addall", "s": "s"}]),
+        item("addall-keeps-scopes", [_add("base", 5, "s", "k", _val("str", "narrow")), _add("base", 1, "s", "k", _val("str", "broad")), _add("cfg", 2, "s", "k", a), _add("cfg", 1, "t", "k", a), {"op": "addall", "s": "s"}]),
+        item("newer-version", [dict(v17, raw=[{"t": "lit", "s": "18"}]), {"op": "load", "au": True}, {"op": "autoload", "addl": []}]),
         item("load-forgets-overrides", [v17, _add("cfg", 2, "s", "k", a), {"op": "load", "au": True}]),
         item("failed-upgrade-keeps-file-content", [dict(v17, raw=[{"t": "lit", "s": "16"}]), _add("cfg", 2, "s", "k", a), {"op": "load", "au": True}]),
         item("version-not-checked", [dict(v17, raw=[{"t": "lit", "s": "16"}]), {"op": "load", "au": False}]),
